@@ -14,7 +14,12 @@ Line protocol of engine `aggregation` (one case per line, the whole operation se
                       over a `RootSink` in front of the aggregator
            `tee`      toks `m=<input>` `f`            (A keyed by (endpoint, shard), B by endpoint, C raw)
            `embedded` toks `i=<input>` `t=<input>` `m=<input>` `r=<input>`   (key-less `Aggregate<T>`)
-           `mutex`    toks `g=<input>` (guard) `d<g>` (drop guard) `m=<input>`; remaining guards dropped in order at the end
+           `mutex`    handle 0 is the `MutexSink<Aggregate<..>>` field flattened into a parent entry, further handles are
+                      clones; toks `m=<input>`/`m<h>=<input>` (merge through a handle) `g…`/`h…` (guard through a handle)
+                      `d/u/j<g>` `c<h>` (clone) `x<h>` (drop a clone, h > 0) `C`/`C<h>` (close the parent / the clone
+                      standalone: one observation, the closed aggregate); ops on closed/dropped handles are skipped;
+                      at the end remaining guards are dropped in order, then the parent is closed if it still
+                      is open, then the lowest live clone (the "next" aggregate)
            `worker`   toks `s<h>=<input>` `g<h>=<input>` `d<g>` `F<h>` `c<h>` `x<h>`; ops on dead handles /
                       guards are skipped; at the end remaining guards, then handles are dropped
            `gated`    the worker with an inner sink whose `flush` the harness can hold at a gate (a gate only
@@ -201,14 +206,59 @@ def handleEmbedded (toks : List String) : String :=
     let raw := (l.filter (·.2)).map fun p => s!"-:-:{p.1.bytes}"
     s!"{showClosed "-" "-" (close a)} | raw={if raw.isEmpty then "-" else ";".intercalate raw}"
 
+def alive (l : List Bool) (h : Nat) : Bool := l[h]? == some true
+
+structure MDrv where
+  m : MState Accum := { shared := callStrat.empty }
+  /-- handle 0 = the parent's field, others = clones -/
+  handles : List Bool := [true]
+  guards : List (Option Input) := []
+  bad : Bool := false
+
+def MDrv.step (d : MDrv) (op : MOp Input) : MDrv := { d with m := mstep callStrat d.m op }
+
+def mtokHandle (t : String) : Nat := ((t.drop 1).toNat?).getD 0
+
+def mtok (d : MDrv) (t : String) : MDrv :=
+  if isDropTok t then
+    match (t.drop 1).toNat? with
+    | none => { d with bad := true }
+    | some g =>
+      match d.guards[g]? with
+      | some (some e) => { (d.step (.merge e)).step .dropHandle with guards := d.guards.set g none }
+      | _ => d
+  else if t.startsWith "C" then
+    let h := mtokHandle t
+    if alive d.handles h then { d.step .close with handles := d.handles.set h false } else d
+  else if t.startsWith "c" && !(t.contains '=') then
+    let h := mtokHandle t
+    if alive d.handles h then { d.step .clone with handles := d.handles ++ [true] } else d
+  else if t.startsWith "x" then
+    let h := mtokHandle t
+    if h ≠ 0 && alive d.handles h then { d.step .dropHandle with handles := d.handles.set h false } else d
+  else match t.splitOn "=" with
+    | [tag, inp] =>
+      match parseInput inp with
+      | none => { d with bad := true }
+      | some e =>
+        let h := mtokHandle tag
+        if tag.startsWith "m" then (if alive d.handles h then d.step (.merge e) else d)
+        else if tag.startsWith "g" || tag.startsWith "h" then
+          (if alive d.handles h then { d.step .clone with guards := d.guards ++ [some e] } else d)
+        else { d with bad := true }
+    | _ => { d with bad := true }
+
 def handleMutex (toks : List String) : String :=
-  let merged := (resolveGuards toks [] []).bind fun ts => ts.mapM fun t =>
-    match splitTok t with
-    | some ("m", e) => some e
-    | _ => none
-  match merged with
-  | none => "bad-op"
-  | some merged => showClosed "-" "-" (close (embedded callStrat merged))
+  let d := toks.foldl mtok {}
+  let d := d.guards.foldl (fun d g => match g with
+    | some e => (d.step (.merge e)).step .dropHandle
+    | none => d) d
+  let d := if alive d.handles 0 then { d.step .close with handles := d.handles.set 0 false } else d
+  let d := match (List.range d.handles.length).find? (alive d.handles) with
+    | some h => { d.step .close with handles := d.handles.set h false }
+    | none => d
+  if d.bad then "bad-op" else
+  join (d.m.emitted.map fun a => showClosed "-" "-" (close a))
 
 /-! ### worker -/
 
@@ -230,7 +280,6 @@ def WDrv.events (d : WDrv) (evs : List (Event Input)) : WDrv :=
   | some w => { d with w := w }
   | none => { d with bad := true }
 
-def alive (l : List Bool) (h : Nat) : Bool := l[h]? == some true
 
 /-- report the epochs emitted since the last report as one observation each -/
 def WDrv.report (d : WDrv) (pref : String) : WDrv :=
